@@ -1,7 +1,7 @@
 """C03 — level-triggered convergence across changes, restarts and downtime."""
 from __future__ import annotations
 
-from kv import cycle_monitors as cm, cycle_runner as cr, cycle_sim as cs, framework as fw
+from kv import cw_tie, cycle_monitors as cm, cycle_runner as cr, cycle_sim as cs, framework as fw
 
 RULE = cr.RULE_HISTORY
 MONITORS = [cm.mon_c03, cm.mon_c03_downtime]
@@ -38,8 +38,40 @@ def gen(r, i):
 def run(ctx: fw.Ctx) -> int:
     ctx.matchers = {'F13': match_f13, 'F14': match_f14, 'F15': match_f15, 'F6': match_f6}
     ctx.proofs()
+    trace_tie(ctx)
     cr.run_histories(ctx, ctx.scale(400, 8000), MONITORS, gen=gen)
     return ctx.finish(RULE, level_note=['closed loop: real kopf.operator() against harness/kv/fakeapi.py (Kubernetes rules assumed there)'])
+
+
+def trace_tie(ctx: fw.Ctx) -> None:
+    """T-tie: histories of the real operator, replayed label by label (with state checks after every worker cycle)
+    by the Gallina acceptor of Model/CycleWorld.v.  The monitors run on the same histories."""
+    ok, logtxt = fw.build_models(['Model/CycleWorld.v'])
+    if not ok:
+        ctx.correspondence_break('model build', logtxt[-1500:])
+        return
+    import json
+    scenarios = [json.loads(p.read_text()) for p in sorted((fw.ROOT / 'corpus' / 'C03').glob('*.json'))]
+    scenarios = [s for s in scenarios if all(h['kind'] in ('create', 'update', 'daemon') for h in s['handlers'])
+                 and not [a for a in s['actions'] if a['a'] in ('recreate', 'delete')] and not s['cfg'].get('latency')]
+    for _ in range(ctx.scale(150, 3000)):
+        scenarios.append(cw_tie.gen_scenario(ctx.rng))
+    cases = []
+    for sc in scenarios:
+        run = cw_tie.run_scenario(sc)
+        try:
+            case, why = cw_tie.case_for(run, 'obj1')
+            ctx.count('T_cycle_world', 'replayable' if case is not None else f'skipped: {why}')
+            if case is not None:
+                cases.append(case)
+                ctx.cov['traces_validated_against_impl'] += 1
+                ctx.count('T_labels', str(min(len(case.data['items']) // 20 * 20, 200)) + '+')
+                ctx.nontriv(sc)
+            for m in MONITORS:
+                m(ctx, run)
+        finally:
+            cs.close(run)
+    ctx.differential('T_cycle_world', cw_tie.HEADER, cases, shard=40)
 
 
 def replay(ctx: fw.Ctx, body: dict) -> bool:
